@@ -52,9 +52,9 @@ func TestVerifC35Filter(t *testing.T) {
 					b[j] = alphabet[r.Intn(len(alphabet))]
 				}
 				p = string(b)
-			if r.Bool() {
-				p = "/" + p
-			}
+				if r.Bool() {
+					p = "/" + p
+				}
 			}
 		}
 		passed, status, panicked := vC35FilterCall(p)
